@@ -44,6 +44,18 @@ def cond_fact(t, truth):
     return f if truth else ("not", f)
 
 
+def _ordering_facts(dt, v):
+    """`match a.cmp(&b)`: the discriminant of core::cmp::Ordering is -1 (Less; 255 as the switch reads it), 0 (Equal), 1 (Greater)"""
+    if dt[0] == "discr" and dt[1][0] == "call" and len(dt[1][2]) == 2 and str(dt[1][1]).endswith("::cmp") and "core::cmp::Ord for " in str(dt[1][1]):
+        a, b_ = dt[1][2]
+        a = a[1] if a[0] == "ref" else ("deref", a)
+        b_ = b_[1] if b_[0] == "ref" else ("deref", b_)
+        op = {0: "Eq", 1: "Gt", 255: "Lt", -1: "Lt"}.get(v)
+        if op:
+            return [("cmp", op, a, b_)]
+    return []
+
+
 def cond_facts(t, truth):
     """facts implied by boolean term t having value `truth`: a gated choice `if c { a } else { false }` that is true gives c
     and a (what `&&`, `is_some_and`, `map_or(false, ..)` leave after INLINE); `if c { true } else { b }` that is false gives
@@ -114,6 +126,7 @@ class Guards:
                         # x.checked_sub(y) is Some  <=>  x >= y
                         out.append(("cmp", "Ge" if v == 1 else "Lt", dt[1][2][0], dt[1][2][1]))
                     out += self._discr_facts(dt, v == 1 if v in (0, 1) else None)
+                    out += _ordering_facts(dt, v)
             else:
                 vals = label[1]
                 if dty == "bool":
@@ -145,6 +158,9 @@ class Guards:
         out = []
         for hook in getattr(self, "_hooks", []):
             out += hook(dt, is_some) or []
+        if x[0] == "checked" and x[1] in ("Rem", "Div"):
+            # a.checked_rem(b) / checked_div(b) on unsigned integers is Some  <=>  b != 0
+            out.append(("cmp", "Ne" if is_some else "Eq", x[2][1], T.C(0)))
         if x[0] == "checked" and x[1] == "Add" and x[3] in U_MAX:
             # a.checked_add(b) is Some  <=>  a + b <= MAX
             out.append(("cmp", "Le" if is_some else "Gt", ("bin", "Add", x[2][0], x[2][1], None), T.C(U_MAX[x[3]])))
@@ -617,6 +633,8 @@ def lin(t):
                 pass
         if x[0] == "sub":
             return lin(x[3]).add(lin(x[2]), -1)
+        if x[0] == "rawslice" and len(x) > 2:
+            return lin(x[2])          # slice::from_raw_parts(p, n).len() == n
         if x[0] == "call" and len(x[2]) == 2 and str(x[1]).startswith("core::slice::index::<impl core::ops::index::Index<core::ops::range::") and \
                 x[2][1][0] == "aggr" and x[2][1][1][0] == "adt":
             rk, ops = x[2][1][1][1].rsplit("::", 1)[1], x[2][1][2]
